@@ -341,7 +341,11 @@ func (h *vHost) Connect(ctx context.Context, pi peer.AddrInfo) error {
 	h.mu.Unlock()
 	if r := h.inj.match(vOpConnect, pi.ID); r != nil {
 		if r.delay > 0 {
-			time.Sleep(r.delay)
+			select {
+			case <-time.After(r.delay):
+			case <-ctx.Done():
+				return ctx.Err()
+			}
 		}
 		if r.err != nil {
 			return r.err
